@@ -45,7 +45,7 @@ func coqStrList(xs []string) string {
 // scope of a package path relative to the repo root
 func scopeOf(rel string) string {
 	segs := "/" + rel + "/"
-	for _, frag := range []string{"/cli/", "/client/", "/simulation/", "/testutil/", "/cmd/"} {
+	for _, frag := range []string{"/cli/", "/client/", "/simulation/", "/testutil/", "/cmd/", "/evmtest/"} {
 		if strings.Contains(segs, frag) {
 			return "ScopeTooling"
 		}
@@ -796,6 +796,100 @@ func (w *walker) addInc(kind string, tele bool) {
 	*w.incs = append(*w.incs, incSite{pkg: w.rel, file: w.file, fn: w.fnKey, ord: ord, kind: kind, telemetry: tele, scp: scopeOf(w.rel)})
 }
 
+// txScopedPublishers: functions that publish the per-transaction StateDB on the bank keeper (a call `….NewStateDB(…)`) and whether
+// the matching `defer … ClearTxStateDB(…)` follows with NO return statement in between (otherwise an early error return leaves
+// the pointer behind in process memory for the next message of this process).
+type publisher struct {
+	pkg, fn string
+	guarded bool
+	scp     string
+}
+
+func collectPublishers(p *packages.Package, repo string, out *[]publisher) {
+	for _, f := range p.Syntax {
+		fname := p.Fset.Position(f.Pos()).Filename
+		base := filepath.Base(fname)
+		if strings.HasSuffix(base, "_test.go") || strings.Contains(base, ".pb.") {
+			continue
+		}
+		rel, err := filepath.Rel(repo, filepath.Dir(fname))
+		if err != nil || strings.HasPrefix(rel, "..") {
+			continue
+		}
+		rel = filepath.ToSlash(rel)
+		for _, d := range f.Decls {
+			fd, ok := d.(*ast.FuncDecl)
+			if !ok || fd.Body == nil || fd.Name.Name == "NewStateDB" {
+				continue
+			}
+			var pubs, returns []token.Pos
+			var defers []token.Pos
+			var walk func(n ast.Node, inLit bool)
+			walk = func(n ast.Node, inLit bool) {
+				ast.Inspect(n, func(x ast.Node) bool {
+					switch y := x.(type) {
+					case *ast.FuncLit:
+						if y.Body != nil && x != n {
+							walk(y.Body, true)
+						}
+						return x == n
+					case *ast.ReturnStmt:
+						if !inLit {
+							returns = append(returns, y.Pos())
+						}
+					case *ast.DeferStmt:
+						clears := false
+						ast.Inspect(y, func(z ast.Node) bool {
+							if c, ok := z.(*ast.CallExpr); ok {
+								if sel, ok := c.Fun.(*ast.SelectorExpr); ok && sel.Sel.Name == "ClearTxStateDB" {
+									clears = true
+								}
+							}
+							return true
+						})
+						if clears && !inLit {
+							defers = append(defers, y.Pos())
+						}
+						return false
+					case *ast.CallExpr:
+						if sel, ok := y.Fun.(*ast.SelectorExpr); ok && sel.Sel.Name == "NewStateDB" && !inLit {
+							pubs = append(pubs, y.Pos())
+						}
+					}
+					return true
+				})
+			}
+			walk(fd.Body, false)
+			if len(pubs) == 0 {
+				continue
+			}
+			guarded := true
+			for _, pp := range pubs {
+				var dpos token.Pos
+				for _, dp := range defers {
+					if dp > pp && (dpos == 0 || dp < dpos) {
+						dpos = dp
+					}
+				}
+				if dpos == 0 {
+					guarded = false
+					continue
+				}
+				for _, rp := range returns {
+					if rp > pp && rp < dpos {
+						guarded = false
+					}
+				}
+			}
+			key := fd.Name.Name
+			if r := recvName(fd); r != "" {
+				key = r + "." + key
+			}
+			*out = append(*out, publisher{pkg: rel, fn: key, guarded: guarded, scp: scopeOf(rel)})
+		}
+	}
+}
+
 const repoModule = "github.com/NibiruChain/nibiru"
 
 // kindOfState classifies a type: "" = plain value / store handle, else PSMap | PSChan | PSSync
@@ -1038,6 +1132,7 @@ func main() {
 	var uses []tsUse
 	var incs []incSite
 	var pstate []procState
+	var pubs []publisher
 	nfiles := 0
 	for _, p := range pkgs {
 		if len(p.Errors) > 0 {
@@ -1047,6 +1142,7 @@ func main() {
 			fatal("no type info for", p.PkgPath)
 		}
 		collectProcState(p, repo, &pstate)
+		collectPublishers(p, repo, &pubs)
 		decls := map[types.Object]*ast.FuncDecl{}
 		for _, f := range p.Syntax {
 			for _, d := range f.Decls {
@@ -1152,6 +1248,21 @@ func main() {
 			wr = "true"
 		}
 		fmt.Printf("  mk_ps %s %s %s %s %s %s %s%s\n", coqString(c.pkg), coqString(c.owner), coqString(c.field), coqString(c.typ), c.kind, wr, c.scp, sep)
+	}
+	fmt.Println("].")
+	sort.SliceStable(pubs, func(i, j int) bool { return less([]string{pubs[i].pkg, pubs[i].fn}, []string{pubs[j].pkg, pubs[j].fn}) })
+	fmt.Println("(* functions publishing the per-tx StateDB: (package, function, defer-ClearTxStateDB follows with no return in between, scope) *)")
+	fmt.Println("Definition statedb_publishers : list (string * string * bool * scope) := [")
+	for i, c := range pubs {
+		sep := ";"
+		if i == len(pubs)-1 {
+			sep = ""
+		}
+		g := "false"
+		if c.guarded {
+			g = "true"
+		}
+		fmt.Printf("  (%s, %s, %s, %s)%s\n", coqString(c.pkg), coqString(c.fn), g, c.scp, sep)
 	}
 	fmt.Println("].")
 	fmt.Println("Definition incidental_sites : list inc_site := [")
